@@ -98,6 +98,25 @@ def analyse(ck, r, what, findings, table):
         desc = '; '.join(['store into %s[%d] (%s) at %s' % (w['label'], w['off'], w['tag'], w['at']) for w in suspicious[:2]] + ['result %s not fresh (%s, %s)' % s for s in stale[:2]])
         ck.record(tag, '%s: %s on a feasible path' % (what, desc), 'sat' if status == 'sat' else status, 'symx+' + str(getattr(res, 'solver', None)), 0.0, 'unsat')
         findings.append((what, desc, suspicious[:1], r.id))
+        # inputs on which some recorded store really changes a caller-owned word (the solver's model drives the replay)
+        net = {}
+        for w in suspicious:   # net effect per word: content before the first store vs. content after the last one
+            if w.get('val', -1) >= 0 and w.get('old', -1) >= 0:
+                k_ = (w['obj'], w['off'])
+                net[k_] = {'old': net[k_]['old'] if k_ in net else w['old'], 'val': w['val']}
+        eff = [w for w in net.values() if w['val'] != w['old']]
+        if eff and r.id.startswith('api'):
+            try:
+                low2 = BVLower(r)
+                pre2 = low2.emit(p['pc'] + [w['val'] for w in eff] + [w['old'] for w in eff])
+                q2 = pre2 + '\n' + '\n'.join('(assert n%d)' % c for c in p['pc']) + '\n(assert (or %s))' % ' '.join('(not (= n%d n%d))' % (w['val'], w['old']) for w in eff[:64])
+                names = {r.nodes[i]['n']: low2.name(i) for i in low2.done if r.nodes[i]['op'] == 'var'}
+                mm, slv = smt.get_model(q2, list(names.values()), timeout=30)
+                ck.record(tag + '.effective', '%s: some store changes the content of a caller-owned word (model for the replay)' % what, 'sat' if mm else 'unknown', slv, 0.0, 'sat' if mm else 'unknown')
+                if mm:
+                    ck.extra.setdefault('_mem_cases', []).append(mem_case(r, what, {nm: mm.get(sym, 0) for nm, sym in names.items()}))
+            except ValueError:
+                pass
     # which of the explored paths are feasible at all is the solver's verdict (also the non-vacuity witness of this run)
     sym = [p for p in r.paths if p['pc']]
     feas = None
@@ -118,6 +137,20 @@ def analyse(ck, r, what, findings, table):
         except ValueError as e:
             ck.notes.append('%s: path conditions not lowered (%s); all paths treated as feasible' % (what, e))
     table.append({'call': what, 'paths': npaths, 'symbolic_paths': len(sym), 'feasible_symbolic_paths': feas, 'offending_feasible_paths': nfeas})
+
+
+def mem_case(r, what, vals):
+    """replay case for one API call from a model (variable name -> value)"""
+    a, n, lay = (int(x) for x in r.id[3:].split('_')[:3])
+    X = {}
+    for pf in ('s', 't', 'u', 'px', 'py', 'pz', 'qx', 'qy', 'qz'):
+        if any((pf + str(i)) in vals for i in range(4)):
+            X[pf] = '%064x' % unlimbs([vals.get(pf + str(i), 0) for i in range(4)])
+    blen = n + {0: 0, 1: 8, 2: 11}[lay]
+    X['backing'] = ''.join('%02x' % (vals.get('in_%d' % i, 0) & 0xff) for i in range(blen))
+    if 'c' in vals:
+        X['c'] = '%x' % vals['c']
+    return {'kind': 'mem-call', 'op': what, 'n': a, 'u': lay, 'x': X}
 
 
 def run(tier, seed):
@@ -153,7 +186,7 @@ def analyse_all(tier, seed, pid, level):
 
 def report(ck, findings, pid):
     if findings:
-        path = ck.save_replay({'property': pid, 'cases': [{'kind': 'mem'}], 'symbolic_findings': [{'call': f[0], 'what': f[1]} for f in findings[:10]]})
+        path = ck.save_replay({'property': pid, 'cases': ck.extra.get('_mem_cases', [])[:24] + [{'kind': 'hostile-prelude'}, {'kind': 'sanity'}, {'kind': 'mem'}], 'symbolic_findings': [{'call': f[0], 'what': f[1]} for f in findings[:10]]})
         ok, out = core.go_test(path)
         if not ok and 'MISMATCH' in out:
             key = 'write:' + (findings[0][2][0]['at'] if findings[0][2] else findings[0][0])
